@@ -37,13 +37,13 @@ def constOpBeforeR3 : List (Act × String) := constOp.take 15
 /-- interp/op.go: what each folding function hands to go/constant, and the Go operator of its typed arms -/
 def folds : List FoldFn :=
   [{ name := "addConst", entry := .binaryOp, tok := .add, toInt := false, bothConst := true,
-     typed := [(.str, .add), (.cplx, .add), (.flt, .add), (.uint, .add), (.sint, .add)] },
+     typed := [(.str, .add), (.fltExact, .add), (.uint, .add), (.sint, .add)] },
    { name := "subConst", entry := .binaryOp, tok := .sub, toInt := false, bothConst := true,
-     typed := [(.cplx, .sub), (.flt, .sub), (.uint, .sub), (.sint, .sub)] },
+     typed := [(.fltExact, .sub), (.uint, .sub), (.sint, .sub)] },
    { name := "mulConst", entry := .binaryOp, tok := .mul, toInt := false, bothConst := true,
-     typed := [(.cplx, .mul), (.flt, .mul), (.uint, .mul), (.sint, .mul)] },
+     typed := [(.fltExact, .mul), (.uint, .mul), (.sint, .mul)] },
    { name := "quoConst", entry := .binaryOp, tok := .byQuoSwitch, toInt := false, bothConst := true,
-     typed := [(.cplx, .quo), (.flt, .quo), (.uint, .quo), (.sint, .quo)] },
+     typed := [(.fltExact, .quo), (.uint, .quo), (.sint, .quo)] },
    { name := "remConst", entry := .binaryOp, tok := .rem, toInt := true, bothConst := true,
      typed := [(.uint, .rem), (.sint, .rem)] },
    { name := "andConst", entry := .binaryOp, tok := .and, toInt := true, bothConst := true,
@@ -59,9 +59,9 @@ def folds : List FoldFn :=
    { name := "shrConst", entry := .shift, tok := .shr, toInt := false, bothConst := false,
      typed := [(.uint, .shr), (.sint, .shr)] },
    { name := "negConst", entry := .unaryOp, tok := .sub, toInt := false, bothConst := false,
-     typed := [(.uint, .sub), (.sint, .sub), (.flt, .sub), (.cplx, .sub)] },
+     typed := [(.uint, .sub), (.sint, .sub), (.fltExact, .sub)] },
    { name := "posConst", entry := .unaryOp, tok := .add, toInt := false, bothConst := false,
-     typed := [(.uint, .add), (.sint, .add), (.flt, .add), (.cplx, .add)] },
+     typed := [(.uint, .add), (.sint, .add), (.fltExact, .add)] },
    { name := "bitNotConst", entry := .unaryOp, tok := .xor, toInt := false, bothConst := false,
      typed := [(.uint, .xor), (.sint, .xor)] },
    { name := "notConst", entry := .unaryOp, tok := .not, toInt := false, bothConst := false,
@@ -86,7 +86,9 @@ def checkFacts : CheckFacts :=
     intBitsMax := some 512, shiftCountMax := some 1074, shiftClamp := 512, quoIntExact := true,
     quoEarlyReturn := false, zeroForm := .anyConst, untypedStays := true, floatShiftCount := true,
     convTypedChecked := true, reprConstValue := true, boolConvChecked := true, foldLogical := true,
-    cmpNotPushed := true, lenConstString := true, runeLitKeepsType := true, f32Direct := true }
+    cmpNotPushed := true, lenConstString := true, runeLitKeepsType := true, f32Direct := true,
+    shiftBoolGuard := true, addSkipsUntyped := true, operandTypeWins := true, codepointChecked := true,
+    lenAnyConstString := true, litBitsMax := some 512 }
 
 /-- the same before those repairs (what the extractor emits for a tree in which all of them are reverted) -/
 def checkFactsBeforeR3 : CheckFacts :=
@@ -94,14 +96,28 @@ def checkFactsBeforeR3 : CheckFacts :=
     intBitsMax := none, shiftCountMax := none, shiftClamp := 512, quoIntExact := false,
     quoEarlyReturn := true, zeroForm := .untypedOnly, untypedStays := false, floatShiftCount := false,
     convTypedChecked := false, reprConstValue := false, boolConvChecked := false, foldLogical := false,
-    cmpNotPushed := false, lenConstString := false, runeLitKeepsType := false, f32Direct := true }
+    cmpNotPushed := false, lenConstString := false, runeLitKeepsType := false, f32Direct := true,
+    shiftBoolGuard := false, addSkipsUntyped := false, operandTypeWins := false, codepointChecked := false,
+    lenAnyConstString := false, litBitsMax := none }
 
 def evalFacts : EvalFacts :=
   { constOp := constOp, folds := folds, quo := quoSwitch, fixSkipsConst := true, constToken := constToken, chk := checkFacts }
 
+/-- the folding functions before 149d328: the floating-point and complex arms compute with Go run-time arithmetic -/
+def foldsBeforeR5 : List FoldFn :=
+  folds.map fun g => { g with typed := g.typed.flatMap fun p => if p.1 == .fltExact then [(.cplx, p.2), (.flt, p.2)] else [p] }
+
 /-- the facts before the repairs of the third round -/
 def evalFactsBeforeR3 : EvalFacts :=
-  { evalFacts with constOp := constOpBeforeR3, folds := folds.take 15, constToken := [], chk := checkFactsBeforeR3 }
+  { evalFacts with constOp := constOpBeforeR3, folds := foldsBeforeR5.take 15, constToken := [], chk := checkFactsBeforeR3 }
+
+/-- the checks before the repairs of the fifth round (a1f1717 … 2988c87) -/
+def checkFactsBeforeR5 : CheckFacts :=
+  { checkFacts with shiftBoolGuard := false, addSkipsUntyped := false, operandTypeWins := false, codepointChecked := false,
+                    lenAnyConstString := false, litBitsMax := none }
+
+/-- the facts before the repairs of the fifth round -/
+def evalFactsBeforeR5 : EvalFacts := { evalFacts with folds := foldsBeforeR5, chk := checkFactsBeforeR5 }
 
 /-- the facts before the repair of F48 (the quotient switch looks at the node type) -/
 def evalFactsBeforeF48 : EvalFacts :=
@@ -123,11 +139,11 @@ def sourceHashes : List (String × String) :=
    ("typecheck.convertUntyped", "00278fd04e62eec4"),
    ("typecheck.representable", "a6193981455303bc"),
    ("typecheck.convertConst", "592472b25770db96"),
-   ("typecheck.conversion", "55c98117608103b7"),
-   ("typecheck.shift", "6a5ed17e12c79d37"),
-   ("typecheck.binaryExpr", "b41f85ab7575bf5f"),
+   ("typecheck.conversion", "19c297363251c31c"),
+   ("typecheck.shift", "c067c5e1eb1cf0af"),
+   ("typecheck.binaryExpr", "fd21ccf4b175d203"),
    ("typecheck.unaryExpr", "bd8f95c0aa36fc91"),
-   ("typecheck.comparison", "883b48f99f9c1eb8"),
+   ("typecheck.comparison", "79d751c2afce5ca1"),
    ("typecheck.assignment", "b3fe6cb50a1a0a8c"),
    ("typecheck.assignExpr", "139b1b8b5a842d9c"),
    ("zeroConst", "5f34021706e6e18d"),
@@ -137,11 +153,12 @@ def sourceHashes : List (String × String) :=
    ("typecheck.logicalExpr", "a24028bbffaf38ba"),
    ("constValue", "22b4b96731178a78"),
    ("isUntypedConst", "7053d9361ff74e30"),
-   ("isConstString", "6e5144d88e8dc8d9"),
-   ("addConst", "5a151a0c68652493"),
-   ("subConst", "88e864a6dda66610"),
-   ("mulConst", "38a3587d98a6fd91"),
-   ("quoConst", "e5a0e05457fa92a7"),
+   ("isConstString", "c65ecc9842dc1413"),
+   ("setConstFloat", "70d91982d2c2feec"),
+   ("addConst", "d762ec763d70355f"),
+   ("subConst", "c44078420d8630df"),
+   ("mulConst", "24b167e4e1cfa8fc"),
+   ("quoConst", "2bef240fe2d94272"),
    ("remConst", "50f24c17fc2965ee"),
    ("andConst", "2eba4fc5353e77b7"),
    ("orConst", "5d6f0134042668e8"),
@@ -149,8 +166,8 @@ def sourceHashes : List (String × String) :=
    ("andNotConst", "9634c953443b56e7"),
    ("shlConst", "42f4b9a97d511ab4"),
    ("shrConst", "646ccc6f66928d80"),
-   ("negConst", "5372e4a9f3d6c8e5"),
-   ("posConst", "3e84246fc9b725c8"),
+   ("negConst", "ed551a188d24be05"),
+   ("posConst", "16ee11687058bb9b"),
    ("bitNotConst", "86c85458b0a6615b"),
    ("notConst", "768c70fd2e84abf5"),
    ("itype.defaultType", "4806c44dfe2828d6"),
